@@ -58,7 +58,8 @@ def run(chk):
         if hk == "none":
             hdr, hv = "none", None
         elif hk == "garbage":
-            s = rng.choice(["", "abc", "-5", "1.5", str(U64 + 1), " 7", "+"])
+            s = rng.choice(["", "abc", "-5", "1.5", str(U64 + 1), " 7", "+", "9" * rng.randrange(21, 300),
+                            "1" * (rng.choice([8, 16, 32, 64, 128, 256]) - 1) + rng.choice(["\u00e9", "\u20ac", "\U0001F600"]) * 2])
             hdr, hv = hx(s.encode()), None
         elif hk == "max":
             hdr, hv = hx(str(U64).encode()), U64
